@@ -563,6 +563,8 @@ class SortedConfigParser(ConfigParser):
             ConfigParser.__init__(self, *args, **kwargs)
         else:
             kwargs["dict_type"] = SortedDict
+            # treeinfo values are plain text: no %(name)s interpolation
+            kwargs.setdefault("interpolation", None)
             super(SortedConfigParser, self).__init__(*args, **kwargs)
         self.seen = set()
 
